@@ -60,3 +60,27 @@ Fixpoint all_canonical_kv (l : list (list N * bval)) : Prop := match l with [] =
 Lemma canonical_list_eq l : canonical (BList l) = all_canonical l. Proof. reflexivity. Qed.
 Lemma canonical_dict_eq l : canonical (BDict l) = (keys_sorted None l /\ all_canonical_kv l). Proof. reflexivity. Qed.
 
+
+(** * Reading a token tree back: the value it denotes, its nodes, its extents *)
+
+Definition tok_start (t : tok) : N := match t with TStr _ s _ | TInt _ s _ | TList _ s _ | TDict _ s _ => s end.
+Definition tok_end (t : tok) : N := match t with TStr _ _ e | TInt _ _ e | TList _ _ e | TDict _ _ e => e end.
+Definition key_bytes (t : tok) : list N := match t with TStr k _ _ => k | _ => [] end.
+
+Fixpoint erase (t : tok) : bval :=
+  match t with
+  | TStr v _ _ => BStr v
+  | TInt z _ _ => BInt z
+  | TList l _ _ => BList (map erase l)
+  | TDict l _ _ => BDict (map (fun kv => (key_bytes (fst kv), erase (snd kv))) l)
+  end.
+
+(** Every node of the tree (dictionary keys included). *)
+Fixpoint subtoks (t : tok) : list tok :=
+  t :: match t with
+       | TStr _ _ _ | TInt _ _ _ => []
+       | TList l _ _ => flat_map subtoks l
+       | TDict l _ _ => flat_map (fun kv => fst kv :: subtoks (snd kv)) l
+       end.
+
+Definition slice (x : list N) (s e : N) : list N := firstn (N.to_nat (e - s)) (skipn (N.to_nat s) x).
